@@ -198,6 +198,7 @@ def strat_init(tier):
 
 
 COORDS = ['x', 'y', 'r', 't']
+READOUTS = ['pvr', 'pvr', 'pvr', 'psd', 'bandlimited_rms', 'stats', 'tis', 'slices', 'copy', 'dropout']
 FAIL_PAD_FORMS = ['shape-int', 'shape-int-between', 'shape', 'shape', 'shape-list', 'samples', 'samples', 'samples-int', 'noargs', 'both', 'bad-value']
 
 
@@ -234,9 +235,12 @@ def strat_op(tier):
         st.just({'op': 'fail', 'what': 'pvr'}),
     )
 
+    # read-outs: public methods that report something about the data and claim no change to it
+    readout = st.fixed_dictionaries({'op': st.just('readout'), 'what': st.sampled_from(READOUTS), 'radius': st.sampled_from([None, 0.3, 0.6, 1.0, 2.0])})
+
     def simple(name):
         return st.just({'op': name})
-    table = {'fail': fail, 'read': read, 'pad': pad, 'crop': simple('crop'), 'mask': mask, 'fill': fill, 'spike_clip': spike,
+    table = {'readout': readout, 'fail': fail, 'read': read, 'pad': pad, 'crop': simple('crop'), 'mask': mask, 'fill': fill, 'spike_clip': spike,
              'remove_piston': simple('remove_piston'), 'remove_tiptilt': simple('remove_tiptilt'),
              'remove_power': simple('remove_power'), 'recenter': simple('recenter'), 'latcal': latcal,
              'strip_latcal': simple('strip_latcal'), 'filter': filt, 'relayout': relayout}
@@ -244,7 +248,7 @@ def strat_op(tier):
     # filter's precondition (no invalid sample) is met in a useful fraction of the histories
     weighted = (['read'] * 12 + ['pad'] * 3 + ['crop'] * 3 + ['mask'] * 3 + ['fill'] * 3 + ['spike_clip'] + ['remove_piston'] * 2 +
                 ['remove_tiptilt'] * 3 + ['remove_power'] * 3 + ['recenter'] * 2 + ['latcal'] * 2 + ['strip_latcal'] * 2 + ['filter'] * 3 +
-                ['relayout'] * 2 + ['fail'] * 5)
+                ['relayout'] * 2 + ['fail'] * 5 + ['readout'] * 6)
     return st.sampled_from(weighted).flatmap(lambda n: table[n])
 
 
@@ -386,6 +390,54 @@ class IfgModel:
         self.last = name
         self.ctx.label('op:' + name)
         getattr(self, 'op_' + name)(op)
+
+    def op_readout(self, op):
+        """a public read-out (PVr with any normalisation radius, PSD, band-limited RMS, statistics, scatter, slices, copy): whatever it returns - or if it
+        refuses the data in its present state - the interferogram is afterwards what it was before: same samples, same invalid set (the invariant
+        that follows checks validity and coordinates against the unchanged model)."""
+        ifg, what = self.ifg, op['what']
+        before = np.array(ifg.data, copy=True)
+        dx0 = ifg.dx
+        try:
+            if what == 'pvr':
+                rad = op.get('radius')
+                if rad is None:
+                    ifg.pvr()
+                else:
+                    half = 0.5 * max(self.shape) * float(ifg.dx if ifg.dx else 1.0)
+                    ifg.pvr(max(rad * half, 1e-9))
+                self.reads.update(('r', 't'))
+            elif what == 'psd':
+                ifg.psd()
+            elif what == 'bandlimited_rms':
+                ifg.bandlimited_rms(flow=0.0, fhigh=None)
+            elif what == 'stats':
+                ifg.pv, ifg.rms, ifg.std, ifg.Sa, ifg.strehl, ifg.size, ifg.shape
+            elif what == 'tis':
+                ifg.total_integrated_scatter(0.5, 10.0)
+            elif what == 'slices':
+                sl = ifg.slices()
+                sl.x, sl.y
+                self.reads.update(('x', 'y'))
+            elif what == 'copy':
+                c = ifg.copy()
+                c.data *= 0
+                c.data += 1
+                c.x, c.y
+                c.x += 1.0
+            else:
+                ifg.dropout_percentage
+            self.ctx.label('readout:' + what + ':returned')
+        except Exception:       # noqa - a read-out may refuse the data (no valid sample, too few samples, non-square): nothing is asserted about the request
+            self.ctx.label('readout:' + what + ':raised')
+        after = np.asarray(ifg.data)
+        U.check_shape(after, before.shape, 'readout-modified-data:' + what, 'data shape after %s' % what)
+        same = (after == before) | (np.isnan(after) & np.isnan(before))
+        if not bool(same.all()):
+            k = tuple(int(v) for v in np.argwhere(~same)[0])
+            self.ctx.fail('readout-modified-data:' + what, '%s changed the data it reports on: sample %s was %r and is %r (%d of %d samples changed, %d became invalid)' % (
+                what, k, before[k], after[k], int((~same).sum()), same.size, int((np.isnan(after) & ~np.isnan(before)).sum())))
+        self.ctx.require(ifg.dx == dx0, 'readout-modified-dx:' + what, 'dx changed from %r to %r during %s' % (dx0, ifg.dx, what))
 
     def op_read(self, op):
         for w in op['which']:
